@@ -166,6 +166,10 @@ def _value_of_type(it: Interp, t, roles: dict, key, pos: str = "key", src: str =
 
 def _pair_verdict(it: Interp, elem) -> str:
     """good | swapped | unknown for one abstract element of a bucket."""
+    if isinstance(elem, Ref) and elem.kind == "obj" and it.is_namedtuple(it.cell(elem).ci) and len(it.record_fields(it.cell(elem).ci)) == 2:
+        # a two-field NamedTuple is a pair
+        c = it.cell(elem)
+        elem = Tup(tuple(frozenset(c.fields.get(n, E)) for n in it.record_fields(c.ci)), c.site)
     if not isinstance(elem, Tup) or len(elem.items) != 2:
         return "unknown"
     a = {s.roles for s in it.scalars(elem.items[0])}
@@ -306,6 +310,29 @@ def run_r2(repo: Repo, res: Result) -> None:
 # --------------------------------------------------------------------------- R3 / R4
 
 
+def _field_matters(it: Interp, ci: ClassInfo, field: str, line: Sc) -> bool:
+    """Does a field of the message record that the line was not formatted from distinguish lines?  Not when everything it carries
+    is in the line anyway (a sort key made of subject and object) or when it only ever holds flags / numbers / None; text of its own
+    (the verb) does."""
+    from .c03_absint import ObjCell
+
+    seen = False
+    for c in it.cells.values():
+        if not (isinstance(c, ObjCell) and c.ci is not None and c.ci.fq == ci.fq and field in c.fields):
+            continue
+        seen = True
+        v = c.fields[field]
+        if any(isinstance(sh, Const) and isinstance(sh.value, str) and sh.value for sh in v):
+            return True
+        for sc in it.scalars(v):
+            content = {x for x in sc.srcs if not str(x).startswith("fld:")}
+            if not sc.roles and not content:
+                return True  # text computed from constants and flags
+            if not sc.roles <= line.roles:
+                return True
+    return not seen
+
+
 def run_r3_r4(repo: Repo, res: Result) -> None:
     T = types_of(repo)
     base = repo.cls(MSG, "RuleViolationMessageBaseGenerator")
@@ -384,7 +411,7 @@ def run_r3_r4(repo: Repo, res: Result) -> None:
                             if ci is None:
                                 continue
                             for a in ci.ann_attrs:
-                                if f"fld:{rc}.{a}" not in s.srcs:
+                                if f"fld:{rc}.{a}" not in s.srcs and _field_matters(it, ci, a, s):
                                     lacks.append(f"{rc}.{a}")
                         if lacks:
                             incomplete_text.setdefault(", ".join(lacks), set()).update(which)
